@@ -331,6 +331,11 @@ def gen_case(r: random.Random) -> Dict[str, Any]:
         objs_est = [O.to_map(o, *ego) for o in objs_est]
     if with_tr:
         p["transforms"] = O.transforms_for(*ego)
+        if frame != "map" and r.random() < 0.35:
+            # an ego-frame list filtered with a registry that holds no ego pose: positions are already ego-relative
+            from perception_eval.common.transform import TransformDict
+
+            p["transforms"] = TransformDict()
     if r.random() < 0.3 and objs_gt:
         p_uuid = [o.uuid for o in r.sample(objs_gt, r.randint(1, len(objs_gt)))] + ["nobody"]
     else:
